@@ -1,5 +1,9 @@
-"""C17 - incremental text encode/decode is chunk-boundary independent (rxsci/data/codec.py)."""
+"""C17 - incremental text encode/decode is chunk-boundary independent (rxsci/data/codec.py; the decode stage
+also as rxsci/container/json.py load_from_file applies it to the 64 KiB read blocks of a file)."""
+import codecs
 import itertools
+import json as pyjson
+import os
 from harness import core
 from harness.rxutil import run_timed
 from harness.core import c_list, c_nlist, c_bool
@@ -19,8 +23,22 @@ RULE = ('cases: (encoding in utf-8/utf-16/utf-32/latin-1, list of strings, byte-
         'exception class escapes (UnicodeDecodeError / UnicodeError "no BOM" / UnicodeEncodeError) and the '
         'checker compares that too; the oracle only requires of them what CPython\'s one-shot codec says: if '
         'bytes.decode / str.encode of the whole input raises, the wrapper must not complete silently. '
+        'RE-SUBSCRIPTION (field subs; ~35% of the random cases of every kind, plus every 1-cut placement of the '
+        'short texts): ONE operator object rs.data.encode(enc) / rs.data.decode(enc) - and, share=pipe, one and the '
+        'same pipeline object op(source) - is subscribed 2-4 times in a row; a subscription is either complete or '
+        'disposed after k inputs (k preferably such that the bytes pushed so far end INSIDE a multi-byte '
+        'sequence / surrogate pair / BOM, so that a codec object would hold leftover bytes and a known byte '
+        'order); every subscription is observed and must behave like a fresh one: judged by the one-shot codec '
+        'like the first, equal step by step to a fresh operator, and compared with the Coq model (CSubs). '
+        'FILES (kind file): JSON-lines files of 1-3 read blocks + tail written with rs.data.encode or '
+        'rs.container.json.dump_to_file and read with rs.container.json.load_from_file (64 KiB binary reads -> '
+        'decode -> unframe -> loads); an ASCII pad is sized so that the k-th byte of a 2/3/4-byte UTF-8 '
+        'character, the low surrogate of a UTF-16 pair, or a character edge (k = 0 / k = length; the only '
+        'feasible alignments for utf-32 and latin-1) falls exactly on every multiple of 65536: every k for every '
+        'character width; the objects read back must equal the objects written, and rs.data.decode run on the '
+        'real read blocks is judged and compared with the model like any other chunking (CFileRL). '
         'non-trivial = well-formed case with >= 2 chunks and at least one cut strictly inside a character or '
-        'inside the BOM; distinct = distinct case JSON')
+        'inside the BOM (files: a read-block boundary strictly inside a character); distinct = distinct case JSON')
 TRUSTED = ['modelled not verified: CPython 3.12 C codecs (utf_8/utf_16/utf_32/latin_1 encode and stateful decode), '
            'Lib/encodings/utf_16.py and utf_32.py (BOM handling of the incremental classes), '
            'codecs.BufferedIncrementalDecoder (carry-over buffer), RxPY Subject synchronous delivery',
@@ -211,16 +229,74 @@ def fixed_bad():
     return [{'kind': 'bad-dec', 'enc': e, 'strs': [], 'chunks': ch} for e in ENCS for ch in streams[e]]
 
 
+def inside_points(case):
+    """numbers k of chunks after which the bytes pushed so far end inside a character or inside the BOM"""
+    if case['kind'] not in ('wf', 'cuts'):
+        return []
+    b = boundaries(case)
+    return [i + 1 for i, off in enumerate(cut_offsets(case)) if off not in b]
+
+
+def with_subs(rng, case):
+    """the same case, its operator object subscribed several times: None = a complete subscription,
+    [kd, ke] = disposed after kd chunks (decode) / ke strings (encode)"""
+    nd, ne = len(case['chunks']), len(case['strs'])
+    ins = inside_points(case)
+
+    def part():
+        kd = rng.choice(ins) if ins and rng.random() < 0.75 else rng.randint(0, nd)
+        return [kd, rng.randint(0, ne)]
+    plan = rng.choice([[None], [None, None], [part()], [part()], [part()], [None, part()], [part(), part()],
+                       [part(), None, part()]]) + [None]
+    return dict(case, subs=plan, share=rng.choice(['pipe', 'pipe', 'op']))
+
+
+def resub_cuts():
+    """every 1-cut placement of the short texts: a first subscription disposed after the first chunk (for most
+    placements in the middle of a character or of the BOM), then a complete one, on the same pipeline object"""
+    return [dict(c, subs=[[1, min(1, len(c['strs']))], None], share='pipe') for c in exhaustive_cuts(1)]
+
+
+# --- files read by rs.container.json.load_from_file --------------------------------------------------
+BLOCK = 64 * 1024
+FILE_CHARS = {'utf-8': [0xE9, 0x20AC, 0x1F600], 'utf-16': [0x20AC, 0x1F600], 'utf-32': [0x1F600], 'latin-1': [0xE9]}
+UNIT = {'utf-8': 1, 'latin-1': 1, 'utf-16': 2, 'utf-32': 4}
+
+
+def file_alignments():
+    """(encoding, code point, k): k bytes of the character lie before the read-block boundary; all the k that
+    the encoding's code unit size allows (k = 0 and k = length: the boundary is on a character edge)"""
+    out = []
+    for enc in ENCS:
+        for cp in FILE_CHARS[enc]:
+            n = len(chr(cp).encode(LE[enc]))
+            out += [(enc, cp, k) for k in range(0, n + 1) if k % UNIT[enc] == 0]
+    return out
+
+
+def gen_files(rng, tier):
+    out = []
+    for enc, cp, k in file_alignments():
+        combos = [(w, nb) for w in ('encode', 'dump') for nb in (1, 2, 3)] if tier == 'thorough' \
+            else [(rng.choice(['encode', 'dump']), rng.choice([1, 2]))]
+        for w, nb in combos:
+            out.append({'kind': 'file', 'enc': enc, 'cp': cp, 'k': k, 'nb': nb, 'writer': w, 'strs': [], 'chunks': []})
+    return out
+
+
 def generate(rng, tier):
     n = {'quick': 520, 'thorough': 15000, 'search': 400}[tier]
     cases = []
     for i in range(n):
         r = rng.random()
-        cases.append(gen_bad_dec(rng) if r < 0.13 else gen_bad_enc(rng) if r < 0.17 else gen_wf(rng, tier != 'quick'))
+        c = gen_bad_dec(rng) if r < 0.13 else gen_bad_enc(rng) if r < 0.17 else gen_wf(rng, tier != 'quick')
+        cases.append(with_subs(rng, c) if rng.random() < 0.35 else c)
     if tier != 'search':
-        cases += fixed_cases() + fixed_bad() + exhaustive_cuts(1) + exhaustive_cuts(2)
+        cases += fixed_cases() + fixed_bad() + exhaustive_cuts(1) + exhaustive_cuts(2) + resub_cuts()
+        cases += [with_subs(rng, c) for c in fixed_cases() + fixed_bad()]
+        cases += gen_files(rng, tier)
     else:
-        cases += fixed_cases() + fixed_bad()
+        cases += fixed_cases() + fixed_bad() + [with_subs(rng, c) for c in fixed_cases()]
     if tier == 'thorough':
         cases += exhaustive_cuts(3)
     return cases
@@ -244,21 +320,286 @@ def drive(op, inputs):
     return {'steps': prev['steps'], 'err': err, 'end': 'raised'}
 
 
+class HandSource:
+    """a cold source driven by hand that can be subscribed again and again: every subscription registers its
+    observer here (rx.create wraps it; an exception of on_next reaches the caller)"""
+    def __init__(self):
+        self.observer = None
+
+    def __call__(self, observer, scheduler=None):
+        from rx.disposable import Disposable
+        self.observer = observer
+        return Disposable()
+
+
+def drive_sub(pipe, src, inputs, k):
+    """ONE subscription of the pipeline object `pipe`: k = None pushes all inputs and completes, otherwise the
+    first k inputs are pushed and the subscription is disposed.  Same shape of result as drive()."""
+    cur, ending = [], ['none']
+
+    def on_error(e):
+        if ending[0] == 'none':
+            ending[0] = 'error:' + type(e).__name__
+
+    def on_completed():
+        if ending[0] == 'none':
+            ending[0] = 'completed'
+    sub = pipe.subscribe(on_next=lambda x: cur.append(x), on_error=on_error, on_completed=on_completed)
+    o, steps, err = src.observer, [], None
+    try:
+        for x in (inputs if k is None else inputs[:k]):
+            del cur[:]
+            o.on_next(x)
+            steps.append(list(cur))
+        if k is None:
+            del cur[:]
+            o.on_completed()
+            steps.append(list(cur))
+    except Exception as e:
+        err = type(e).__name__
+    sub.dispose()
+    return {'steps': steps, 'err': err, 'end': 'raised' if err else ('disposed' if ending[0] == 'none' else ending[0])}
+
+
+def resubscribe(make_op, inputs, plan, share):
+    """the operator object is made ONCE; share == 'pipe': also the pipeline op(source) is built once and subscribed
+    len(plan) times; share == 'op': the operator is applied to the source anew for every subscription"""
+    import rx
+    op, src = make_op(), HandSource()
+    source = rx.create(src)
+    pipe = op(source) if share == 'pipe' else None
+    return [drive_sub(pipe if pipe is not None else op(source), src, inputs, k) for k in plan]
+
+
+def enc_view(r):
+    return {'steps': [[list(b) for b in st] for st in r['steps']], 'err': r['err'], 'end': r['end']}
+
+
+def dec_view(r):
+    return {'steps': [[cps(t) for t in st] for st in r['steps']], 'err': r['err'], 'end': r['end']}
+
+
 def run_impl(case):
     import rxsci as rs
+    if case['kind'] == 'file':
+        return run_file(case)
     enc = case['enc']
     strs = [''.join(chr(c) for c in s) for s in case['strs']]
+    chunks = [bytes(c) for c in case['chunks']]
     e = drive(rs.data.encode(enc), strs)
-    d = drive(rs.data.decode(enc), [bytes(c) for c in case['chunks']])
-    return {'enc_steps': [[list(b) for b in st] for st in e['steps']], 'enc_err': e['err'], 'enc_end': e['end'],
-            'dec_steps': [[cps(t) for t in st] for st in d['steps']], 'dec_err': d['err'], 'dec_end': d['end']}
+    d = drive(rs.data.decode(enc), chunks)
+    obs = {'enc_steps': [[list(b) for b in st] for st in e['steps']], 'enc_err': e['err'], 'enc_end': e['end'],
+           'dec_steps': [[cps(t) for t in st] for st in d['steps']], 'dec_err': d['err'], 'dec_end': d['end']}
+    if case.get('subs'):
+        plan = case['subs']
+        es = resubscribe(lambda: rs.data.encode(enc), strs, [None if p is None else p[1] for p in plan], case['share'])
+        ds = resubscribe(lambda: rs.data.decode(enc), chunks, [None if p is None else p[0] for p in plan], case['share'])
+        obs['resub'] = [{'enc': enc_view(a), 'dec': dec_view(b)} for a, b in zip(es, ds)]
+    return obs
+
+
+# --- files -------------------------------------------------------------------------------------------
+FILES = os.path.join(core.WORK, PID, 'files')
+MARK = '<<'
+
+
+def rl(xs, u=1):
+    """run-length form [[block, repetitions], ...] of a list of ints, blocks of u items (one code unit)"""
+    out = []
+    for i in range(0, len(xs), u):
+        x = list(xs[i:i + u])
+        if out and out[-1][0] == x:
+            out[-1][1] += 1
+        else:
+            out.append([x, 1])
+    return out
+
+
+def unrl(r):
+    out = []
+    for v, n in r:
+        out += v * n
+    return out
+
+
+def file_records(case, pads):
+    ch = chr(case['cp'])
+    return [{'i': b, 'p': 'x' * pads[b], 'c': MARK + ch + ch + '>>' + ch} for b in range(case['nb'])] + [{'i': -1, 'p': '', 'c': ch}]
+
+
+def collect(o):
+    out, end = [], []
+    o.subscribe(on_next=out.append, on_error=lambda e: end.append('error:' + type(e).__name__),
+                on_completed=lambda: end.append('completed'))
+    return out, (end[0] if end else 'pending')
+
+
+def write_file(case, fn, records):
+    """-> (the text lines handed to rs.data.encode, what encode emitted, how writing ended)"""
+    import rx
+    import rxsci as rs
+    enc = case['enc']
+    if case['writer'] == 'dump':
+        lines, _ = collect(rx.from_(records).pipe(rs.container.json.dump()))
+        _, wend = collect(rx.from_(records).pipe(rs.container.json.dump_to_file(fn, encoding=enc)))
+    else:
+        lines = [pyjson.dumps(r, ensure_ascii=False) + '\n' for r in records]
+        wend = 'completed'
+    e = drive(rs.data.encode(enc), lines)
+    if case['writer'] != 'dump':
+        with open(fn, 'wb') as f:
+            f.write(b''.join(o for st in e['steps'] for o in st))
+    return lines, e, wend
+
+
+def run_file(case):
+    import rxsci as rs
+    import rxsci.io.file as file
+    enc, u = case['enc'], UNIT[case['enc']]
+    os.makedirs(FILES, exist_ok=True)
+    fn = os.path.join(FILES, 'f%d.json' % os.getpid())
+    try:
+        # pass 1, no padding: where are the marked characters?  pass 2: pad every record so that k bytes of its
+        # first marked character lie before the next multiple of 64 KiB
+        pads = [0] * case['nb']
+        write_file(case, fn, file_records(case, pads))
+        with open(fn, 'rb') as f:
+            data = f.read()
+        mark, pos, shift = MARK.encode(LE[enc]), 0, 0
+        for b in range(case['nb']):
+            pos = data.find(mark, pos)
+            while pos >= 0 and pos % u:
+                pos = data.find(mark, pos + 1)
+            if pos < 0:
+                break
+            pos += len(mark)
+            pads[b] = max(0, (b + 1) * BLOCK - case['k'] - (pos + shift)) // u
+            shift += pads[b] * u
+        records = file_records(case, pads)
+        lines, e, wend = write_file(case, fn, records)
+        with open(fn, 'rb') as f:
+            data = f.read()
+        blocks, _ = collect(file.read(fn, mode='rb', size=BLOCK))
+        straddle = []       # for every block boundary: bytes of an unfinished character / BOM before it
+        for off in range(BLOCK, len(data), BLOCK):
+            dec = codecs.getincrementaldecoder(enc)()
+            try:
+                dec.decode(data[:off])
+                straddle.append(len(dec.getstate()[0]))
+            except UnicodeError:
+                straddle.append(-1)
+        loaded, lend = collect(rs.container.json.load_from_file(fn, encoding=enc))
+        d = drive(rs.data.decode(enc), blocks)
+    finally:
+        if os.path.exists(fn):
+            os.remove(fn)
+    canon = lambda o: rl(cps(pyjson.dumps(o, ensure_ascii=False, sort_keys=True)))
+    return {'pads': pads, 'bytes': len(data), 'straddle': straddle, 'write_end': wend,
+            'file_is_encoder_output': data == b''.join(o for st in e['steps'] for o in st),
+            'written': [canon(r) for r in records], 'loaded': [canon(o) for o in loaded], 'load_end': lend,
+            'strs': [rl(cps(l)) for l in lines], 'chunks': [rl(list(b), u) for b in blocks],
+            'enc_steps': [[rl(list(b), u) for b in st] for st in e['steps']], 'enc_err': e['err'], 'enc_end': e['end'],
+            'dec_steps': [[rl(cps(t)) for t in st] for st in d['steps']], 'dec_err': d['err'], 'dec_end': d['end']}
 
 
 def oracle(case, obs):
-    """C17 itself, judged with CPython's one-shot codecs only (no model)."""
-    enc = case['enc']
+    """C17 itself, judged with CPython's one-shot codecs only (no model); every subscription of a re-subscribed
+    operator is judged like the first one and must equal a fresh operator step by step."""
     if 'raised' in obs:
         return {'sig': 'codec:harness-raised', 'what': 'running encode/decode failed with %s' % obs['raised']}
+    if case['kind'] == 'file':
+        return oracle_file(case, obs)
+    f = judge(case, obs)
+    if f or not case.get('subs'):
+        return f
+    enc = case['enc']
+    for j, (p, r) in enumerate(zip(case['subs'], obs['resub'])):
+        where = ' [subscription #%d of the same %s object, plan %s]' % (
+            j + 1, 'pipeline' if case.get('share') == 'pipe' else 'operator', case['subs'])
+        if p is None:
+            f = judge(case, {'enc_steps': r['enc']['steps'], 'enc_err': r['enc']['err'], 'enc_end': r['enc']['end'],
+                             'dec_steps': r['dec']['steps'], 'dec_err': r['dec']['err'], 'dec_end': r['dec']['end']})
+        else:
+            f = judge_partial(case, p, r)
+        if f:
+            return {'sig': f['sig'] + '@resubscription', 'what': f['what'] + where}
+        for side, k, n_in in (('enc', None if p is None else p[1], len(case['strs'])),
+                              ('dec', None if p is None else p[0], len(case['chunks']))):
+            fresh = {'steps': obs[side + '_steps'], 'err': obs[side + '_err'], 'end': obs[side + '_end']}
+            want = like_fresh(fresh, k, n_in)
+            if r[side] != want:
+                return {'sig': '%s:resubscription-differs' % enc,
+                        'what': '%s: fresh operator %r, this subscription %r%s' % (
+                            {'enc': 'encode', 'dec': 'decode'}[side], str(want)[:120], str(r[side])[:120], where)}
+    return None
+
+
+def like_fresh(fresh, k, n_inputs):
+    """what a subscription that gets the first k inputs (None: all, then completion) must show, given what a
+    fresh operator showed on all inputs + completion"""
+    if k is None:
+        return fresh
+    j = len(fresh['steps'])                       # with an error: number of pushes that went through
+    if fresh['err'] is None or k <= min(j, n_inputs):
+        return {'steps': fresh['steps'][:k], 'err': None, 'end': 'disposed'}
+    return {'steps': fresh['steps'][:j], 'err': fresh['err'], 'end': 'raised'}
+
+
+def judge_partial(case, p, r):
+    """a subscription disposed after kd chunks / ke strings of a WELL-FORMED case: no error; the bytes so far are
+    the one-shot encoding of the strings so far; the text so far is the prefix of the text that the bytes so
+    far determine (at most one unfinished character / BOM held back)"""
+    enc, kd, ke = case['enc'], p[0], p[1]
+    if case['kind'] not in ('wf', 'cuts'):
+        return None
+    text = text_of(case['strs'])
+    try:
+        ref = text.encode(enc)
+        want = text_of(case['strs'][:ke]).encode(enc) if ke else b''
+    except UnicodeError:
+        return None
+    if bytes(sum(case['chunks'], [])) != ref:
+        return None
+    if r['enc']['err'] or r['dec']['err']:
+        return {'sig': enc + ':partial-raised', 'what': 'a subscription disposed early raised %s/%s'
+                % (r['enc']['err'], r['dec']['err'])}
+    got_bytes = b''.join(bytes(o) for st in r['enc']['steps'] for o in st)
+    if got_bytes != want:
+        return {'sig': enc + ':encode-bytes', 'what': 'after %d strings: %r != %r' % (ke, got_bytes[:24], want[:24])}
+    got = ''.join(''.join(chr(c) for c in o) for st in r['dec']['steps'] for o in st)
+    pushed = sum(len(c) for c in case['chunks'][:kd])
+    nb = len(BOM[enc])
+    held = pushed - (len(got.encode(LE[enc])) + (nb if pushed >= nb else 0))
+    if not text.startswith(got) or not 0 <= held <= 3:
+        return {'sig': enc + ':decode-text', 'what': 'after %d bytes: got %r, text %r' % (pushed, got[:16], text[:16])}
+    return None
+
+
+def oracle_file(case, obs):
+    enc = case['enc']
+    if obs['write_end'] != 'completed':
+        return {'sig': enc + ':file-write', 'what': 'dump_to_file ended with %s' % obs['write_end']}
+    if obs['load_end'] != 'completed' or obs['loaded'] != obs['written']:
+        n = next((i for i, (a, b) in enumerate(zip(obs['loaded'], obs['written'])) if a != b),
+                 min(len(obs['loaded']), len(obs['written'])))
+        return {'sig': enc + ':file-readback', 'what': 'json.load_from_file of a %d-byte %s file (U+%04X with %d of its '
+                'bytes before each 64 KiB boundary; unfinished bytes at the boundaries: %s): ended %s with %d of %d '
+                'objects, first difference at object %d' % (obs['bytes'], enc, case['cp'], case['k'], obs['straddle'],
+                                                            obs['load_end'], len(obs['loaded']), len(obs['written']), n)}
+    full = {'kind': 'wf', 'enc': enc, 'strs': [unrl(s) for s in obs['strs']], 'chunks': [unrl(c) for c in obs['chunks']]}
+    f = judge(full, {'enc_steps': [[unrl(o) for o in st] for st in obs['enc_steps']], 'enc_err': obs['enc_err'],
+                     'enc_end': obs['enc_end'],
+                     'dec_steps': [[unrl(o) for o in st] for st in obs['dec_steps']], 'dec_err': obs['dec_err'],
+                     'dec_end': obs['dec_end']})
+    if f:
+        return {'sig': f['sig'] + '@file-blocks', 'what': f['what']}
+    if not obs['file_is_encoder_output']:
+        return {'sig': enc + ':file-bytes', 'what': 'the file written is not the output of rs.data.encode on the lines'}
+    return None
+
+
+def judge(case, obs):
+    enc = case['enc']
     got_bytes = b''.join(bytes(o) for st in obs['enc_steps'] for o in st)
     got_text = ''.join(''.join(chr(c) for c in o) for st in obs['dec_steps'] for o in st)
     text = text_of(case['strs'])
@@ -337,6 +678,8 @@ def cut_offsets(case):
 
 
 def nontrivial(case, obs):
+    if case['kind'] == 'file':
+        return isinstance(obs, dict) and any(x > 0 for x in obs.get('straddle', []))
     if case['kind'] not in ('wf', 'cuts') or len(case['chunks']) < 2:
         return False
     b = boundaries(case)
@@ -347,8 +690,30 @@ def describe(cases, obs):
     d = {'by_encoding': {}, 'by_kind': {}, 'empty_chunks': 0, 'one_byte_chunkings': 0, 'max_chunks': 0,
          'cuts_inside_character': 0, 'cuts_inside_bom': 0, 'cases_with_astral': 0, 'cases_with_combining': 0,
          'cases_with_empty_string': 0, 'cases_with_no_string': 0, 'first_string_empty_bom_codec': 0,
-         'decode_errors_observed': {}, 'encode_errors_observed': 0, 'max_stream_bytes': 0}
+         'decode_errors_observed': {}, 'encode_errors_observed': 0, 'max_stream_bytes': 0,
+         'resubscribed_cases': 0, 'resubscriptions': 0, 'subscriptions_disposed_early': 0,
+         'disposed_inside_character_or_bom': 0, 'resubscribed_by_sharing': {}, 'files': 0, 'file_bytes_max': 0,
+         'file_block_boundaries': 0, 'file_boundaries_inside_character': {}}
     for c, o in zip(cases, obs):
+        if c['kind'] == 'file':
+            d['by_encoding'][c['enc']] = d['by_encoding'].get(c['enc'], 0) + 1
+            d['by_kind']['file'] = d['by_kind'].get('file', 0) + 1
+            d['files'] += 1
+            if isinstance(o, dict) and 'straddle' in o:
+                d['file_bytes_max'] = max(d['file_bytes_max'], o['bytes'])
+                d['file_block_boundaries'] += len(o['straddle'])
+                for x in o['straddle']:
+                    if x > 0:
+                        key = '%s:%d-of-%d-bytes-before' % (c['enc'], x, len(chr(c['cp']).encode(LE[c['enc']])))
+                        d['file_boundaries_inside_character'][key] = d['file_boundaries_inside_character'].get(key, 0) + 1
+            continue
+        if c.get('subs'):
+            ins = set(inside_points(c))
+            d['resubscribed_cases'] += 1
+            d['resubscriptions'] += len(c['subs'])
+            d['subscriptions_disposed_early'] += sum(1 for p in c['subs'] if p is not None)
+            d['disposed_inside_character_or_bom'] += sum(1 for p in c['subs'] if p is not None and p[0] in ins)
+            d['resubscribed_by_sharing'][c['share']] = d['resubscribed_by_sharing'].get(c['share'], 0) + 1
         d['by_encoding'][c['enc']] = d['by_encoding'].get(c['enc'], 0) + 1
         d['by_kind'][c['kind']] = d['by_kind'].get(c['kind'], 0) + 1
         d['empty_chunks'] += sum(1 for ch in c['chunks'] if not ch)
@@ -389,9 +754,39 @@ def nss(xs):
     return c_list([c_nlist(x) for x in xs])
 
 
+def c_rl(r):
+    return c_list(['(%s,%d%%N)' % (c_nlist(v), n) for v, n in r]) if r else '[]'
+
+
+def c_run(k, r):
+    if r['err'] not in COQ_ERR:
+        raise ValueError(r['err'])
+    return '(%s, %s, %s, %s)' % ('None' if k is None else '(Some %d)' % k, c_list([nss(st) for st in r['steps']]),
+                                 COQ_ERR[r['err']], c_bool(r['end'] == 'completed'))
+
+
 def coq_term(case, obs):
     if 'raised' in obs or obs['enc_err'] not in COQ_ERR or obs['dec_err'] not in COQ_ERR:
         return 'CRaised'
+    if case['kind'] == 'file':
+        rss = lambda xs: c_list([c_rl(x) for x in xs])
+        return 'CFileRL %s %s %s %s %s %s %s %s %s' % (
+            COQ_ENC[case['enc']],
+            rss(obs['strs']), c_list([rss(st) for st in obs['enc_steps']]), COQ_ERR[obs['enc_err']],
+            c_bool(obs['enc_end'] == 'completed'),
+            rss(obs['chunks']), c_list([rss(st) for st in obs['dec_steps']]), COQ_ERR[obs['dec_err']],
+            c_bool(obs['dec_end'] == 'completed'))
+    if case.get('subs'):
+        try:
+            er = [c_run(None, {'steps': obs['enc_steps'], 'err': obs['enc_err'], 'end': obs['enc_end']})]
+            dr = [c_run(None, {'steps': obs['dec_steps'], 'err': obs['dec_err'], 'end': obs['dec_end']})]
+            for p, r in zip(case['subs'], obs['resub']):
+                er.append(c_run(None if p is None else p[1], r['enc']))
+                dr.append(c_run(None if p is None else p[0], r['dec']))
+        except ValueError:
+            return 'CRaised'
+        return 'CSubs %s %s %s %s %s' % (COQ_ENC[case['enc']], nss(case['strs']), c_list(er),
+                                         nss(case['chunks']), c_list(dr))
     return 'CCase %s %s %s %s %s %s %s %s %s' % (
         COQ_ENC[case['enc']],
         nss(case['strs']), c_list([nss(st) for st in obs['enc_steps']]), COQ_ERR[obs['enc_err']],
@@ -401,14 +796,21 @@ def coq_term(case, obs):
 
 
 def coq_model_expr(case):
+    if case['kind'] == 'file':      # the neighbourhood of the first boundary is what matters; printed for the reader only
+        ch = cps(chr(case['cp']).encode(LE[case['enc']]).decode('latin-1'))
+        return '(decode %s %s)' % (COQ_ENC[case['enc']], nss([list(BOM[case['enc']]) + ch[:case['k']], ch[case['k']:]]))
     return '(encode %s %s, decode %s %s)' % (COQ_ENC[case['enc']], nss(case['strs']),
                                              COQ_ENC[case['enc']], nss(case['chunks']))
 
 
 def neighbours(case, rng):
     """other chunkings of the same stream, and the same stream cut short"""
+    if case['kind'] == 'file':
+        return [dict(case, k=k) for k in range(0, 5) if k % UNIT[case['enc']] == 0]
     data = sum(case['chunks'], [])
     out = []
+    if not case.get('subs'):
+        out += [with_subs(rng, case) for _ in range(3)]
     for _ in range(6):
         out.append(dict(case, chunks=cut(rng, data, rng.choice([1, 2, 3, len(data)]))))
     out.append(dict(case, chunks=[[b] for b in data]))
